@@ -940,7 +940,7 @@ fn lfo_curve_case(r: &mut Rng) -> Result<u64, String> {
 
 /// A clock whose speed follows a moving modulator must advance, in every chunk, by chunk duration x the speed mapped from
 /// the modulator's value of that same chunk (modulators are advanced before clocks).
-fn clock_link_case(r: &mut Rng) -> Result<u64, String> {
+pub fn clock_link_case(r: &mut Rng) -> Result<u64, String> {
 	use kira::clock::ClockSpeed;
 	let sr = 1000u32;
 	let ibs = *r.pick(&[1usize, 4, 16]);
